@@ -30,7 +30,7 @@ class QueryFamily:
         """C02_sound / C02_complete speak of the Cartesian product of NON-EMPTY domains: with an empty domain the product is empty
         although the evaluator may never need to enumerate that variable (a disjunct it is absent from).  Such cases are compared
         with the model only (engine: hyp = False)."""
-        if concat_var_bound_before(case):
+        if concat_var_bound_before(case) or case.get('correlated'):
             return False
         return all_selected(case) or all(len(d) > 0 for _, d in case['doms'])
 
@@ -51,7 +51,10 @@ class QueryFamily:
         dtie = ('dseq', rows) if self.uses_dmodel(case) and not isinstance(rows, str) else None
         # property: every observed configuration against the specification
         prop = tuple(self.view(case, io[k], True) for k in self.observed())
-        return (tie, dtie), prop
+        # third tie, also outside the hypotheses of the specification (correlated concatenations, empty domains): every observed
+        # configuration (caching off / on, first evaluation / re-evaluation) returns the row set of the first one
+        agree = all(self.view(case, io.get(k, 'X missing'), False) == self.view(case, io['off'], False) for k in self.observed())
+        return (tie, dtie, agree), prop
 
     def uses_dmodel(self, case):
         return in_dfrag(case)
@@ -63,10 +66,10 @@ class QueryFamily:
         mo, _, do = mo.partition(' DD ')
         rows = parse_rows(mo)
         if isinstance(rows, str):
-            return (rows, None)
+            return (rows, None, True)
         drows = parse_rows(do) if do.strip() not in ('', '-') else None
         dtie = ('dseq', drows) if self.uses_dmodel(case) else None
-        return (('seq', rows) if all_selected(case) else ('set', sorted(set(rows))), dtie)
+        return (('seq', rows) if all_selected(case) else ('set', sorted(set(rows))), dtie, True)
 
     def prop_view(self, case, so):
         return tuple(self.view(case, so, True) for _ in self.observed())
@@ -766,6 +769,8 @@ class C11(QueryFamily):
         # how the head is written: keyword arguments, positional arguments (to a class whose positional parameters are
         # interleaved with inherited and own keyword-only ones), or a mix
         c['head_style'] = rng.choice(['kw', 'kw', 'pos', 'mixed'])
+        if c['head_style'] == 'kw' and rng.random() < 0.3:
+            c['falsy_head'] = True            # the constructed class has __len__ == 0: its instances are falsy objects
         return c
 
     def within_hypotheses(self, case):
